@@ -123,12 +123,15 @@ type Sym struct {
 	MaxDepth  int
 	MaxVisits int
 	MaxPaths  int
+	AllowCuts bool // the function may loop by design (retry loop): paths cut at the loop bound do not make the result unusable
 }
 
 // SymResult is the outcome of a run.
 type SymResult struct {
 	Traces   []*Trace
-	Overflow bool   // path budget exceeded: Traces is incomplete
+	Overflow bool // path budget exceeded: Traces is incomplete
+	Cuts     int  // paths cut at the loop bound (unexplored continuations)
+	allowCut bool
 	Recv     *Val   // the receiver leaf (nil for functions)
 	Params   []*Val // parameter leaves
 	Fn       *core.Fn
@@ -151,6 +154,7 @@ type State struct {
 	defers map[int][]deferred
 	tags   map[token.Pos]*Val
 	iter   map[token.Pos]int // iterations done of a range over a list of known elements
+	bonus  map[int]int       // per frame: extra visits granted by ranges over lists of known length
 	seq    map[token.Pos]int // executions of the call at a position
 	nobj   int
 	stack  []*types.Func
@@ -211,7 +215,7 @@ func (cfgS *Sym) Run(fn *core.Fn) *SymResult {
 		rangeX: map[ast.Expr]*ast.RangeStmt{}, rangeVar: map[*ast.Ident]*ast.RangeStmt{},
 		fl: flow.New(cfgS.C.Program), ifaceW: map[string]map[*types.Var]bool{}}
 	st := &State{x: x, env: map[types.Object]*Val{}, fields: map[string]*Val{}, fieldF: map[string]*types.Var{}, ver: map[*types.Var]int{},
-		visits: map[int]map[int32]int{}, defers: map[int][]deferred{}, tags: map[token.Pos]*Val{}, seq: map[token.Pos]int{}, iter: map[token.Pos]int{}}
+		visits: map[int]map[int32]int{}, defers: map[int][]deferred{}, tags: map[token.Pos]*Val{}, seq: map[token.Pos]int{}, iter: map[token.Pos]int{}, bonus: map[int]int{}}
 	fr := x.newFrame(fn.Obj, nil, cfgq.Of(cfgS.C.Program, fn), fn.Decl.Type, 0)
 	st.stack = []*types.Func{fn.Obj}
 	// parameters
@@ -244,6 +248,12 @@ func (cfgS *Sym) Run(fn *core.Fn) *SymResult {
 		})
 	}
 	x.res.Overflow = x.overflow
+	x.res.allowCut = cfgS.AllowCuts
+	for _, t := range x.res.Traces {
+		if t.Exit == ExitCut {
+			x.res.Cuts++
+		}
+	}
 	return x.res
 }
 
@@ -350,6 +360,10 @@ func (st *State) clone() *State {
 	for k, v := range st.iter {
 		n.iter[k] = v
 	}
+	n.bonus = make(map[int]int, len(st.bonus))
+	for k, v := range st.bonus {
+		n.bonus[k] = v
+	}
 	n.stack = st.stack[:len(st.stack):len(st.stack)]
 	return n
 }
@@ -429,6 +443,9 @@ func (x *exec) runBlock(st *State, fr *frame, b *cfg.Block, from int, ret retK) 
 		if rs, ok := b.Stmt.(*ast.RangeStmt); ok {
 			if lst := st.tags[rs.X.Pos()]; lst != nil && lst.K == VList {
 				i := st.iter[rs.Pos()]
+				if n := len(lst.Args); n <= 16 && st.bonus[fr.id] < n {
+					st.bonus[fr.id] = n // the body legitimately runs once per element
+				}
 				if i < len(lst.Args) {
 					st.iter[rs.Pos()] = i + 1
 					bind := func(e ast.Expr, v *Val) {
@@ -460,7 +477,7 @@ func (x *exec) runBlock(st *State, fr *frame, b *cfg.Block, from int, ret retK) 
 			st.visits[fr.id] = m
 		}
 		m[b.Index]++
-		if m[b.Index] > x.cfg.MaxVisits {
+		if m[b.Index] > x.cfg.MaxVisits+st.bonus[fr.id] {
 			x.finish(st, ExitCut, nil, token.NoPos)
 			return
 		}
@@ -1147,6 +1164,10 @@ func (x *exec) eval(st *State, fr *frame, e ast.Expr, k func(*State, *Val)) {
 	case *ast.IndexExpr:
 		x.eval(st, fr, v.X, func(st *State, a *Val) {
 			x.eval(st, fr, v.Index, func(st *State, i *Val) {
+				if a != nil && a.K == VList && i != nil && i.K == VConst && i.Int >= 0 && int(i.Int) < len(a.Args) {
+					k(st, a.Args[i.Int]) // table lookup with a constant index
+					return
+				}
 				r := &Val{K: VIndex, X: a, Y: i, T: x.info.TypeOf(e)}
 				if st.epoch > 0 {
 					r.Str = fmt.Sprint(st.epoch)
